@@ -52,6 +52,16 @@ def gen_doc(rng, tag, ctx):
         d = docs.generate('dfxp', rng, tag, ctx, text=inline.rich_lines, nlang=2)
     else:
         d = docs.generate(fmt, rng, tag, ctx, text=inline.rich_lines if rng.random() < 0.7 else None)
+    if fmt == 'dfxp' and rng.random() < 0.4:
+        # documents that name their language on <tt> differently, or not at all, and divs that do not name theirs:
+        # what a reader falls back to must not depend on what it read before
+        import re
+        doc = d['doc'].replace('<tt xml:lang="en"', rng.choice(['<tt', '<tt', '<tt xml:lang="fr"', '<tt xml:lang="sv"']), 1)
+        divs = [m for m in re.finditer(r'<div xml:lang="[^"]*"', doc)]
+        if divs and rng.random() < 0.7:
+            m = rng.choice(divs)
+            doc = doc[:m.start()] + '<div' + doc[m.end():]
+        d = dict(d, doc=doc)
     return {'format': fmt, 'doc': d['doc'], 'reader_kwargs': d['reader_kwargs'], 'read_kwargs': d['read_kwargs'],
             'nlang': len(d['expected'])}
 
